@@ -583,7 +583,12 @@ impl PoeticNumberLiteral {
                         .map(|x| Self::word_len(x))
                         .fold(Self::word_len(s0), |a, b| a + b),
                 };
-                (length % 10) as f64 * Self::ten_to_the(exponent - idx as i32)
+                // a zero digit contributes nothing, even where the power of ten overflows to
+                // infinity (a literal of more than 309 words): 0 * inf would poison the sum with NaN
+                match length % 10 {
+                    0 => 0.0,
+                    digit => digit as f64 * Self::ten_to_the(exponent - idx as i32),
+                }
             })
             .sum()
     }
